@@ -50,7 +50,7 @@ REQUIRED_REACH = [
 ]
 
 ENTRIES = ("string", "with_emitter", "assemble", "patch", "cli")
-SLOTS_PER_CLASS = int(__import__("os").environ.get("VERIF_C14_SLOTS", "8"))
+SLOTS_PER_CLASS = int(__import__("os").environ.get("VERIF_C14_SLOTS", "6"))
 FILE_ENTRIES = ("with_emitter", "assemble", "patch", "cli")
 
 # ---------------------------------------------------------------------------
@@ -60,6 +60,9 @@ FILE_ENTRIES = ("with_emitter", "assemble", "patch", "cli")
 ERROR_CLASSES: dict[str, dict[str, Any]] = {
     "invalid_char": {"scope": "parse", "text": "?"},
     "unterminated_string": {"scope": "parse", "text": ".ascii 'abc"},
+    # a NUL character is a character like any other: not the end of the input
+    "nul_at_statement_level": {"scope": "parse", "text": "\x00"},
+    "error_after_nul_in_comment": {"scope": "asm", "text": "; note \x00 more\nlda.w undefined_after_nul_zq"},
     "bad_size_suffix": {"scope": "parse", "text": "lda.q #1"},
     "bad_index_register": {"scope": "parse", "text": "lda 0x10,z"},
     "unknown_keyword": {"scope": "parse", "text": ".frobnicate 1"},
@@ -130,6 +133,9 @@ ERROR_CLASSES: dict[str, dict[str, Any]] = {
     "address_beyond_24_bits": {"scope": "asm", "text": "*=0x1008000\n.db 1"},
     # code that runs off the end of the last mapped ROM bank into an unmapped bank
     "run_off_mapped_rom": {"scope": "asm", "text": "*=$ROMEND\n.dl 0x111111, 0x222222"},
+    # errors that only surface when the statement is emitted, in a block positioned in RAM (no ROM offset)
+    "emit_time_error_in_ram_positioned_block": {"scope": "asm", "text": "*=0x7e2000\nlda.w #undefined_in_ram_zq", "top_only": True},
+    "width_error_in_ram_positioned_block": {"scope": "asm", "text": "*=0x7e4000\nnop\nlda.l #0x12", "top_only": True},
     "undefined_inside_nested_expression": {"scope": "asm", "text": ".dw -(2 + undefined_zq) * 3"},
     # Evaluations that abort half-way on the current tree.  Whether these *ought* to be errors is not
     # something C14 states (comparison operators are lexed; a tree that evaluated them would still hold
@@ -206,7 +212,7 @@ def plan(tier: str) -> dict[str, Any]:
     # the interpreter's own settings are environment too: every error class once in a fresh interpreter
     # started with -O (asserts stripped, __debug__ false) for two fixed base programs
     fixed = [dict(gen_case(core.case_seed(0xC14, "C14", f"opt{i}"), tier), only_interpreter_flags=["-O"]) for i in range(2 if tier == "quick" else 8)]
-    return {"fixed": fixed, "seeded": 26 if tier == "quick" else 0, "chunk": 1, "wall_cap_s": 240, "minimise_s": 30}
+    return {"fixed": fixed, "seeded": 20 if tier == "quick" else 0, "chunk": 1, "wall_cap_s": 240, "minimise_s": 30}
 
 
 def entry_spec(entry: str, prog: progen.Prog, copier: bool, cli_format: str) -> dict[str, Any]:
@@ -293,6 +299,13 @@ def output_image(outcome: dict[str, Any], spec: dict[str, Any]) -> tuple[ipsref.
 
 
 def run_single(case: dict[str, Any], stats: Stats) -> list[Violation]:
+    if case.get("insert") is not None:
+        f0 = case["insert"]["slot"]["file"]
+        if f0 != "main.s" and f0 not in progen.live_includes(progen.Prog.from_record(case["prog"])):
+            # the file holding the inserted statement is not included any more (an old replay file written
+            # by a minimiser step that dropped the '.include'): the statement is never assembled
+            stats.bump("no_verdict(inserted statement unreachable)")
+            return []
     prog, files, roles = build_files(case)
     spec = dict(case["spec"])
     if case.get("writer_fail_at") is not None:
@@ -462,6 +475,8 @@ def benign_knobs(rng: random.Random) -> dict[str, Any]:
         k["short_writes"] = rng.getrandbits(32)
     if rng.random() < 0.3:
         k["locale_encoding"] = rng.choice(["latin-1", "cp1252", "ascii", "utf-8"])
+    if rng.random() < 0.2:
+        k["warnings"] = "error"  # python -W error
     return k
 
 
